@@ -124,19 +124,28 @@ var errSeek = errors.New("verif: injected seek error")
 type simFile struct {
 	data     []byte
 	pos      int
-	pass     int // number of Seek(0,0) calls so far
+	pass     int // number of times reading (re)started at offset 0
+	counted  bool
+	seeks    int // number of Seek calls so far
 	chunk    int // 0 = as much as asked
 	zeroAt   int // inject one (0,nil) at this Read call number (0 = never)
 	reads    int
 	eioPass  int // pass in which the read error fires (0 = never)
 	eioAt    int // byte offset
-	seekFail int // pass number whose Seek fails (0 = never)
+	seekFail int // the seekFail-th Seek call fails (0 = never)
 	fired    map[string]int
 	maxPass  int
 }
 
 func (f *simFile) Read(p []byte) (int, error) {
 	f.reads++
+	if f.pos == 0 && !f.counted {
+		f.counted = true
+		f.pass++
+		if f.pass > f.maxPass {
+			f.maxPass = f.pass
+		}
+	}
 	if len(p) == 0 {
 		return 0, nil
 	}
@@ -145,11 +154,12 @@ func (f *simFile) Read(p []byte) (int, error) {
 		return 0, nil
 	}
 	limit := len(f.data)
-	if f.eioPass == f.pass && f.eioAt < limit {
+	eio := f.eioPass > 0 && f.eioPass == f.pass
+	if eio && f.eioAt < limit {
 		limit = f.eioAt
 	}
 	if f.pos >= limit {
-		if f.eioPass == f.pass && f.pos >= f.eioAt {
+		if eio && f.pos >= f.eioAt {
 			f.fired["reader-io-error"]++
 			return 0, errEIO
 		}
@@ -165,23 +175,42 @@ func (f *simFile) Read(p []byte) (int, error) {
 	}
 	copy(p, f.data[f.pos:f.pos+n])
 	f.pos += n
+	if f.pos > 0 {
+		f.counted = false
+	}
 	return n, nil
 }
 
+// Seek implements io.Seeker in full (an implementation may query its position
+// or rewind relative to the end); the seekFail-th call fails.
 func (f *simFile) Seek(off int64, whence int) (int64, error) {
-	if off != 0 || whence != 0 {
-		return 0, fmt.Errorf("verif: unexpected Seek(%d,%d)", off, whence)
-	}
-	f.pass++
-	if f.pass > f.maxPass {
-		f.maxPass = f.pass
-	}
-	if f.seekFail == f.pass {
+	f.seeks++
+	if f.seekFail > 0 && f.seeks == f.seekFail {
 		f.fired["seek-failure"]++
 		return 0, errSeek
 	}
-	f.pos = 0
-	return 0, nil
+	var np int64
+	switch whence {
+	case io.SeekStart:
+		np = off
+	case io.SeekCurrent:
+		np = int64(f.pos) + off
+	case io.SeekEnd:
+		np = int64(len(f.data)) + off
+	default:
+		return 0, fmt.Errorf("verif: invalid whence %d", whence)
+	}
+	if np < 0 {
+		return 0, fmt.Errorf("verif: negative position")
+	}
+	if int(np) != f.pos {
+		f.counted = false
+	}
+	f.pos = int(np)
+	if f.pos > len(f.data) {
+		f.pos = len(f.data)
+	}
+	return np, nil
 }
 
 // ---------- the run ----------
@@ -248,7 +277,9 @@ func (r *run) genDoc() {
 	}
 	pickNode := func() int64 {
 		if nN == 0 || t.OneIn(25, "dangling-node") {
-			return int64(900 + t.Choose(3, "dangling-id"))
+			// absent node ids are small, so that they coincide with ids of
+			// existing ways and relations (ids are only unique per type)
+			return int64(nN + 1 + t.Choose(3, "dangling-id"))
 		}
 		return int64(1 + t.Choose(nN, "node-ref"))
 	}
@@ -280,14 +311,14 @@ func (r *run) genDoc() {
 			case 1:
 				ref := int64(1 + t.Choose(nW+1, "way-ref"))
 				if int(ref) > nW {
-					ref = int64(900 + t.Choose(2, "dangling-way"))
+					ref = int64(nW + 1 + t.Choose(3, "dangling-way"))
 				}
 				rl.members = append(rl.members, member{"way", ref})
 			default:
 				// any relation id incl. itself and later ones (forward refs, cycles)
 				ref := int64(1 + t.Choose(nR+1, "rel-ref"))
 				if int(ref) > nR {
-					ref = int64(900)
+					ref = int64(nR + 1 + t.Choose(2, "dangling-rel"))
 				}
 				if ref == rl.id {
 					r.res.Probe("relation-self-reference")
@@ -404,7 +435,7 @@ func (r *run) exec() {
 		f.eioAt = t.Choose(len(xmlDoc), "eio-at")
 	case 6:
 		faulty = true
-		f.seekFail = 1 + t.Choose(3, "seek-fail-pass")
+		f.seekFail = 1 + t.Choose(6, "seek-fail-call")
 	case 7:
 		faulty = true
 		cancelAt = int64(1 + t.Choose(400, "cancel-at"))
@@ -516,18 +547,27 @@ func (r *run) exec() {
 	h := core.NewHasher().Str(string(xmlDoc)).Str(r.ks.String())
 	r.res.States = []uint64{uint64(h)}
 	// Check() == nil  <=>  no kept object references an object missing from the document
-	var cerr error
-	if p, v, st := core.Protect(func() { cerr = data.Check() }); p {
-		r.fail("panic", "Check", "Check panicked: %v %s", v, core.TrimStack(st, 4))
-		return
-	}
 	dang := dangling(r.d, want)
 	if dang {
 		r.res.Probe("document-with-dangling-reference")
 	}
-	if (cerr == nil) == dang {
-		r.fail("check-wrong", "", "Check() returned %v but the model says dangling-reference=%v", cerr, dang)
-		return
+	// Check ranges over Go maps (an order the simulator does not own): for
+	// correct code nil-ness is order-independent; evaluate it several times
+	// (many more in a replay) so that an order-dependent answer is seen
+	reps := 4
+	if r.trace {
+		reps = 64
+	}
+	for i := 0; i < reps; i++ {
+		var cerr error
+		if p, v, st := core.Protect(func() { cerr = data.Check() }); p {
+			r.fail("panic", "Check", "Check panicked: %v %s", v, core.TrimStack(st, 4))
+			return
+		}
+		if (cerr == nil) == dang {
+			r.fail("check-wrong", "", "Check() returned %v but the model says dangling-reference=%v", cerr, dang)
+			return
+		}
 	}
 	r.filterOracle(data, want)
 }
